@@ -519,6 +519,196 @@ func c13RunBase(interval, timeout time.Duration, script []c13Out, custom bool) (
 	return o, nil
 }
 
+// ---------------------------------------------------------------- real BaseClient, surplus PINGRESPs
+
+// c13WireConn tells when the reader has consumed and dispatched everything the peer sent: it
+// then enters Read with nothing queued.
+type c13WireConn struct {
+	*memConn
+	imu       sync.Mutex
+	idle      bool
+	idleCount int
+}
+
+func (t *c13WireConn) Read(p []byte) (int, error) {
+	t.memConn.mu.Lock()
+	empty := len(t.memConn.in) == 0
+	t.memConn.mu.Unlock()
+	if empty {
+		t.imu.Lock()
+		t.idle = true
+		t.idleCount++
+		t.imu.Unlock()
+	}
+	n, err := t.memConn.Read(p)
+	t.imu.Lock()
+	t.idle = false
+	t.imu.Unlock()
+	return n, err
+}
+
+func (t *c13WireConn) waitIdle() (int, bool) {
+	deadline := time.Now().Add(c13Stuck)
+	for {
+		t.imu.Lock()
+		idle, c := t.idle, t.idleCount
+		t.imu.Unlock()
+		if idle {
+			return c, true
+		}
+		if t.isClosed() || time.Now().After(deadline) {
+			return c, false
+		}
+		time.Sleep(100 * time.Microsecond)
+	}
+}
+
+// inject sends one PINGRESP while nobody waits for one and returns when the reader has dispatched it.
+func (t *c13WireConn) inject() bool {
+	c0, ok := t.waitIdle()
+	if !ok {
+		return false
+	}
+	t.send([]byte{0xD0, 0})
+	deadline := time.Now().Add(c13Stuck)
+	for {
+		t.imu.Lock()
+		c := t.idleCount
+		t.imu.Unlock()
+		if c > c0 {
+			return true
+		}
+		if t.isClosed() || time.Now().After(deadline) {
+			return false
+		}
+		time.Sleep(100 * time.Microsecond)
+	}
+}
+
+// c13WireCli is the Client handed to KeepAlive: BaseClient.Ping, and between two pings (after
+// one returned, before the loop waits for the next tick) the peer's unsolicited PINGRESPs.
+type c13WireCli struct {
+	mqtt.Client
+	base *mqtt.BaseClient
+	conn *c13WireConn
+	urs  [][2]int
+	n    int
+}
+
+func (w *c13WireCli) Ping(ctx context.Context) error {
+	err := w.base.Ping(ctx)
+	w.n++
+	if err == nil {
+		w.conn.waitIdle() // duplicates sent with the answer have been dispatched too
+		if w.n < len(w.urs) {
+			for i := 0; i < w.urs[w.n][0]; i++ {
+				w.conn.inject()
+			}
+		}
+	}
+	return err
+}
+
+// c13RunWire: per ping j, urs[j] = (unsolicited PINGRESPs before its PINGREQ, PINGRESPs after it).
+func c13RunWire(interval, timeout time.Duration, urs [][2]int) (c13Obs, error) {
+	par := c13NewParent(false)
+	var mu sync.Mutex
+	var starts []int64
+	extra := false
+	var extraAt int64
+	var t0 time.Time
+	wc := &c13WireConn{}
+	wc.memConn = newMemConn(1, func(c *memConn, pkt []byte) error {
+		switch pkt[0] & 0xF0 {
+		case 0x10:
+			c.send(connackOK)
+		case 0xC0:
+			mu.Lock()
+			now := time.Since(t0).Microseconds()
+			i := len(starts)
+			if i >= len(urs) {
+				if !extra {
+					extra, extraAt = true, now
+				}
+				mu.Unlock()
+				par.end(1)
+				return nil
+			}
+			starts = append(starts, now)
+			mu.Unlock()
+			var burst []byte
+			for k := 0; k < urs[i][1]; k++ {
+				burst = append(burst, 0xD0, 0)
+			}
+			if len(burst) > 0 {
+				c.send(burst)
+			}
+		}
+		return nil
+	})
+	cli := &mqtt.BaseClient{Transport: wc}
+	ctxC, cancelC := ctxTimeout(10 * time.Second)
+	defer cancelC()
+	if _, err := cli.Connect(ctxC, "c13"); err != nil {
+		return c13Obs{}, fmt.Errorf("c13 wire: connect: %v", err)
+	}
+	w := &c13WireCli{base: cli, conn: wc, urs: urs}
+	if len(urs) > 0 {
+		for i := 0; i < urs[0][0]; i++ {
+			wc.inject() // before any ping: there is no channel yet
+		}
+	}
+	type ret struct {
+		err      error
+		panicked bool
+		at       int64
+	}
+	ch := make(chan ret, 1)
+	mu.Lock()
+	t0 = time.Now()
+	mu.Unlock()
+	go func() {
+		var r ret
+		defer func() {
+			if p := recover(); p != nil {
+				r.panicked = true
+			}
+			r.at = time.Since(t0).Microseconds()
+			ch <- r
+		}()
+		r.err = mqtt.KeepAlive(par.ctx, w, interval, timeout)
+	}()
+	var r ret
+	stuck := false
+	select {
+	case r = <-ch:
+	case <-time.After(c13Stuck):
+		stuck = true
+		par.end(1)
+		cli.Close()
+		select {
+		case <-ch:
+		case <-time.After(2 * time.Second):
+		}
+	}
+	par.end(1)
+	cli.Close()
+	mu.Lock()
+	defer mu.Unlock()
+	o := c13Obs{Starts: append([]int64{}, starts...), Elapsed: r.at}
+	switch {
+	case stuck:
+		o.Res, o.ResDesc, o.Elapsed = "IStuck", "stuck", c13Stuck.Microseconds()
+	case r.panicked:
+		o.Res, o.ResDesc = "IPanic", "panic"
+	case extra:
+		o.Res, o.ResDesc, o.Elapsed = "IRunning", "still-running", extraAt
+	default:
+		o.Res, o.ResDesc = c13Class(r.err)
+	}
+	return o, nil
+}
+
 // ---------------------------------------------------------------- system level
 
 type c13Conn struct {
@@ -673,7 +863,9 @@ type c13SysRes struct {
 }
 
 // the broker answers k pings of a connection, then stays silent
-func c13SysSilent(interval, timeout time.Duration, k int) (c13SysRes, error) {
+// cancelAfter >= 0: the caller cancels the context it passed to Connect once that many PINGREQs
+// were seen (0: right after Connect returned); -1: it keeps it for the whole scenario.
+func c13SysSilent(interval, timeout time.Duration, k, cancelAfter int) (c13SysRes, error) {
 	victim := 0
 	b := newC13Broker(nil)
 	b.answer = func(c *c13Conn, n int) bool {
@@ -702,6 +894,21 @@ func c13SysSilent(interval, timeout time.Duration, k int) (c13SysRes, error) {
 	defer cancel()
 	if _, err := cli.Connect(ctx, "c13"); err != nil {
 		return c13SysRes{}, fmt.Errorf("c13 sys: first connect: %v", err)
+	}
+	if cancelAfter >= 0 {
+		if cancelAfter > 0 {
+			b.waitEv(c13SysTO, func() bool {
+				total := 0
+				for i := 1; i <= b.dials(); i++ {
+					c := b.conn(i)
+					c.mu.Lock()
+					total += c.pings
+					c.mu.Unlock()
+				}
+				return total >= cancelAfter
+			})
+		}
+		cancel() // the usual "defer cancel()" of the caller, Connect has returned long ago
 	}
 	found := b.waitEv(c13SysTO, func() bool { return getVictim() != 0 })
 	v := getVictim()
@@ -741,9 +948,10 @@ func c13SysSilent(interval, timeout time.Duration, k int) (c13SysRes, error) {
 	cli.Disconnect(ctxD)
 	cancelD()
 	return c13SysRes{
-		Coq: fmt.Sprintf("SysSilent %d %d %s %s %s %s %s (%s) %d", interval.Microseconds(), timeout.Microseconds(),
-			cNat(k), cNat(pings), cBool(closed), cBool(redialed), cBool(connected), errCoq, gap),
+		Coq: fmt.Sprintf("SysSilent %d %d %s %s %s %s %s %s (%s) %d", interval.Microseconds(), timeout.Microseconds(),
+			cNat(k), cOpt(cancelAfter >= 0, cNat(cancelAfter)), cNat(pings), cBool(closed), cBool(redialed), cBool(connected), errCoq, gap),
 		Desc: map[string]interface{}{"scenario": "broker answers k pings then stays silent", "k": k,
+			"caller_cancels_connect_context_after_pings": cancelAfter,
 			"interval_us": interval.Microseconds(), "timeout_us": timeout.Microseconds(), "silent_connection": v,
 			"pingreqs_on_it": pings, "client_closed_it": closed, "redialed": redialed, "fresh_connect": connected,
 			"its_Err": errDesc, "close_minus_last_answer_us": gap},
@@ -928,6 +1136,7 @@ type c13Job struct {
 	timeout  time.Duration
 	outs     []c13Out
 	steps    []c13Step
+	urs      [][2]int
 	custom   bool
 	seed     int64
 	obs      c13Obs
@@ -946,6 +1155,8 @@ func (j *c13Job) run() {
 	switch j.fam {
 	case "base":
 		j.obs, j.err = c13RunBase(j.interval, j.timeout, j.outs, j.custom)
+	case "wire":
+		j.obs, j.err = c13RunWire(j.interval, j.timeout, j.urs)
 	default:
 		j.obs = c13RunFake(j.interval, j.timeout, j.steps, j.custom, j.seed)
 	}
@@ -953,7 +1164,11 @@ func (j *c13Job) run() {
 
 func (j *c13Job) coq() string {
 	var sc []string
-	if j.fam == "env" {
+	if j.fam == "wire" {
+		for _, ur := range j.urs {
+			sc = append(sc, fmt.Sprintf("(%s,%s)", cNat(ur[0]), cNat(ur[1])))
+		}
+	} else if j.fam == "env" {
 		for _, s := range j.steps {
 			sc = append(sc, s.code())
 		}
@@ -967,7 +1182,11 @@ func (j *c13Job) coq() string {
 
 func (j *c13Job) desc() map[string]interface{} {
 	var sc []string
-	if j.fam == "env" {
+	if j.fam == "wire" {
+		for _, ur := range j.urs {
+			sc = append(sc, fmt.Sprintf("%d unsolicited PINGRESP, PINGREQ, %d PINGRESP", ur[0], ur[1]))
+		}
+	} else if j.fam == "env" {
 		for _, s := range j.steps {
 			sc = append(sc, s.desc())
 		}
@@ -1207,6 +1426,42 @@ func runC13(cfg *runCfg) error {
 	addBase([]c13Out{{2, 7}})
 	nBase := len(jobs) - nOutEnum - nEnv
 
+	// ---- wire: real BaseClient, peer sends surplus PINGRESPs (duplicates with an answer,
+	// unsolicited ones between two pings), then stays silent or keeps answering
+	addWire := func(urs [][2]int) {
+		j := &c13Job{fam: "wire", interval: 2 * ms, urs: urs, timeout: c13LongTO}
+		for _, ur := range urs {
+			if ur[1] == 0 {
+				j.timeout = 300 * ms
+				break
+			}
+		}
+		jobs = append(jobs, j)
+	}
+	for _, urs := range [][][2]int{
+		{{0, 1}, {0, 0}}, {{0, 2}, {0, 0}}, {{0, 1}, {1, 0}}, {{0, 1}, {3, 0}}, {{1, 0}}, {{2, 1}, {0, 0}},
+		{{2, 1}, {0, 1}, {1, 0}}, {{0, 3}, {2, 1}, {1, 0}}, {{0, 1}, {1, 1}, {1, 1}, {1, 0}}, {{0, 2}, {1, 1}, {1, 2}},
+		{{0, 1}, {0, 1}, {0, 1}, {2, 0}, {0, 1}},
+	} {
+		addWire(urs)
+	}
+	nWireRand := 12
+	if !quick {
+		nWireRand = 150
+	}
+	for i := 0; i < nWireRand; i++ {
+		var urs [][2]int
+		n := r.Intn(7)
+		for k := 0; k < n; k++ {
+			urs = append(urs, [2]int{r.Intn(3) * r.Intn(2), 1 + r.Intn(3)*r.Intn(2)})
+		}
+		if r.Intn(4) > 0 {
+			urs = append(urs, [2]int{r.Intn(3), 0})
+		}
+		addWire(urs)
+	}
+	nWire := len(jobs) - nOutEnum - nEnv - nBase
+
 	// ---- run the unit-level jobs on a pool (they mostly sleep on tickers)
 	workers := 48
 	var next int64 = -1
@@ -1250,7 +1505,17 @@ func runC13(cfg *runCfg) error {
 	for _, k := range ks {
 		k := k
 		iv := time.Duration(2+r.Intn(3)) * ms
-		sys = append(sys, &sysJob{run: func() (c13SysRes, error) { return c13SysSilent(iv, 250*ms, k) }})
+		sys = append(sys, &sysJob{run: func() (c13SysRes, error) { return c13SysSilent(iv, 250*ms, k, -1) }})
+	}
+	// the caller cancels its Connect context after Connect returned: {k, cancel after m pings}
+	ccs := [][2]int{{0, 0}, {3, 0}, {5, 2}, {2, 2}}
+	if !quick && !search {
+		ccs = append(ccs, [2]int{1, 0}, [2]int{8, 0}, [2]int{8, 4}, [2]int{13, 13}, [2]int{1, 1})
+	}
+	for _, kc := range ccs {
+		kc := kc
+		iv := time.Duration(2+r.Intn(3)) * ms
+		sys = append(sys, &sysJob{run: func() (c13SysRes, error) { return c13SysSilent(iv, 250*ms, kc[0], kc[1]) }})
 	}
 	sys = append(sys, &sysJob{run: func() (c13SysRes, error) { return c13SysHealthy(5*ms, 5*time.Second, soak) }})
 	sys = append(sys, &sysJob{run: func() (c13SysRes, error) { return c13SysHealthy(2*ms, 5*time.Second, soak) }})
@@ -1295,7 +1560,7 @@ func runC13(cfg *runCfg) error {
 	// ---- write cases
 	cf := newCasesFile("C13", "KeepAlive", "CheckC13")
 	m := &meta{Property: "C13", Distribution: map[string]interface{}{}, Families: map[string][]interface{}{}}
-	var outCases, envCases, baseCases, sysCases []string
+	var outCases, envCases, baseCases, wireCases, sysCases []string
 	resKinds := map[string]int{}
 	distinct := map[string]bool{}
 	nontrivial := 0
@@ -1320,6 +1585,9 @@ func runC13(cfg *runCfg) error {
 		case "base":
 			baseCases = append(baseCases, j.coq())
 			m.Families["base"] = append(m.Families["base"], d)
+		case "wire":
+			wireCases = append(wireCases, j.coq())
+			m.Families["wire"] = append(m.Families["wire"], d)
 		}
 		resKinds[j.fam+":"+j.obs.ResDesc]++
 		if len(j.obs.Starts) > maxPings {
@@ -1349,6 +1617,7 @@ func runC13(cfg *runCfg) error {
 	cf.def("out_cases", "list c13_out_case", cList(outCases))
 	cf.def("env_cases", "list c13_env_case", cList(envCases))
 	cf.def("base_cases", "list c13_out_case", cList(baseCases))
+	cf.def("wire_cases", "list c13_wire_case", cList(wireCases))
 	cf.def("sys_cases", "list sys_case", cList(sysCases))
 	var paceStarts []string
 	for _, st := range pace.Starts {
@@ -1366,15 +1635,18 @@ func runC13(cfg *runCfg) error {
 	cf.result("M_env", "c13_env_mismatches env_cases")
 	cf.result("V_base", "c13_out_violations base_cases")
 	cf.result("M_base", "c13_out_mismatches base_cases")
+	cf.result("V_wire", "c13_wire_violations wire_cases")
+	cf.result("M_wire", "c13_wire_mismatches wire_cases")
 	cf.result("V_sys", "c13_sys_violations sys_cases")
 	cf.result("M_sys", "c13_sys_mismatches sys_cases")
 	m.Evaluations = len(jobs) - skipped + len(sys) + 1
 	m.DistinctNontrivial = nontrivial
-	m.Rule = fmt.Sprintf("mqtt.KeepAlive driven by a scripted Client: every script up to length %d over {answered at once, answered after half an interval, never answered, failing at once with 3 different errors (two of them wrapping another context's error), parent context Canceled/DeadlineExceeded before/during the ping}, each terminal outcome after 4..%d answered pings, every one of 54 general steps (cancel before x 6 ping behaviours x cancel during) after 0-2 answered pings, %d pairs of them, %d random scripts of up to %d pings incl. non-positive interval/timeout; %d scripts against a real BaseClient over an in-memory transport with a scripted broker; %d ReconnectClient scenarios (broker silent after k pings, responsive broker soaked %s then Disconnect, peer drop followed by a healthy connection, Disconnect while a ping is unanswered); one pace run (5 answered pings at 150 ms, each must start within 500 ms of its tick, best of up to three serial tries). Non-trivial = distinct script on which the loop returned after at least 2 pings",
-		L, ns[len(ns)-1], nPairs, nRand, maxLen, nBase, len(sys), soak)
+	m.Rule = fmt.Sprintf("mqtt.KeepAlive driven by a scripted Client: every script up to length %d over {answered at once, answered after half an interval, never answered, failing at once with 3 different errors (two of them wrapping another context's error), parent context Canceled/DeadlineExceeded before/during the ping}, each terminal outcome after 4..%d answered pings, every one of 54 general steps (cancel before x 6 ping behaviours x cancel during) after 0-2 answered pings, %d pairs of them, %d random scripts of up to %d pings incl. non-positive interval/timeout; %d scripts against a real BaseClient over an in-memory transport with a scripted broker, %d more where the broker sends surplus PINGRESPs (duplicates, unsolicited ones between pings) before going silent; %d ReconnectClient scenarios (broker silent after k pings, also after the caller cancelled the context it passed to Connect, responsive broker soaked %s then Disconnect, peer drop followed by a healthy connection, Disconnect while a ping is unanswered); one pace run (5 answered pings at 150 ms, each must start within 500 ms of its tick, best of up to three serial tries). Non-trivial = distinct script on which the loop returned after at least 2 pings",
+		L, ns[len(ns)-1], nPairs, nRand, maxLen, nBase, nWire, len(sys), soak)
 	m.Distribution["out_scripts"] = nOutEnum
 	m.Distribution["env_scripts"] = nEnv
 	m.Distribution["base_scripts"] = nBase
+	m.Distribution["wire_scripts"] = nWire
 	m.Distribution["sys_scenarios"] = len(sys)
 	m.Distribution["results"] = resKinds
 	m.Distribution["distinct_scripts"] = len(distinct)
